@@ -21,6 +21,11 @@ ENCODINGS = {
     "prefix": ["c1", "c10", "c11"],
     "frac": [0.25, 0.75, 0.5],
     "wide": ["x", "xy", "xyz"],
+    # distinct values that a tolerant / narrowing comparison would confuse
+    "nearfloat": [0.3, 0.1 + 0.2, 0.75],
+    "bigfloat": [1e15, 1e15 + 1, 1e15 + 2],
+    "bigint": [2**53, 2**53 + 1, -(2**62)],
+    "narrowint": "narrowint",
 }
 WRAPS = ["scalar", "list", "a0", "a1", "a2", "series"]
 
@@ -28,6 +33,8 @@ WRAPS = ["scalar", "list", "a0", "a1", "a2", "series"]
 def encode(k, enc):
     if enc == "npint":
         return np.int64([3, 9, 27][k])
+    if enc == "narrowint":  # a narrow numpy integer first, wider python ints later
+        return [np.int8(5), 261, 70005][k]
     return ENCODINGS[enc][k]
 
 
